@@ -66,6 +66,44 @@ def _decorator_names(fn) -> list[str]:
     return out
 
 
+def _is_private(n: str) -> bool:
+    return n.startswith("_") and not n.startswith("__")
+
+
+def _params(fn) -> list:
+    a = fn.args
+    return [p.arg for p in a.posonlyargs + a.args] + (["*" + a.vararg.arg] if a.vararg else []) + \
+        [p.arg for p in a.kwonlyargs] + (["**" + a.kwarg.arg] if a.kwarg else [])
+
+
+def private_symbols(modules: dict) -> dict:
+    """scope -> {private name: signature}.  Scopes: 'func:<module>', 'class:<module>', 'method:<module>.<Class>',
+    'field:<module>.<Class>'.  Signatures: parameter names; (method names, field names) for classes; the
+    annotation source for fields."""
+    out: dict = {}
+    for m in modules.values():
+        fs, cs = {}, {}
+        for node in m.tree.body:
+            if isinstance(node, (ast.FunctionDef, ast.AsyncFunctionDef)) and _is_private(node.name):
+                fs[node.name] = _params(node)
+            elif isinstance(node, ast.ClassDef):
+                ms, flds = {}, {}
+                for st in node.body:
+                    if isinstance(st, (ast.FunctionDef, ast.AsyncFunctionDef)) and _is_private(st.name):
+                        ms[st.name] = _params(st)
+                    elif isinstance(st, ast.AnnAssign) and isinstance(st.target, ast.Name) and _is_private(st.target.id):
+                        flds[st.target.id] = ast.unparse(st.annotation)
+                out[f"method:{m.name}.{node.name}"] = ms
+                out[f"field:{m.name}.{node.name}"] = flds
+                if _is_private(node.name):
+                    cs[node.name] = [sorted(x.name for x in node.body if isinstance(x, ast.FunctionDef)),
+                                     sorted(x.target.id for x in node.body if isinstance(x, ast.AnnAssign)
+                                            and isinstance(x.target, ast.Name))]
+        out[f"func:{m.name}"] = fs
+        out[f"class:{m.name}"] = cs
+    return out
+
+
 class Program:
     def __init__(self, repo: str = REPO):
         self.repo = repo
@@ -96,6 +134,7 @@ class Program:
                 except SyntaxError as e:  # the tree must at least parse
                     raise AnalysisError(f"syntax error in {path}: {e}") from e
                 self.modules[name] = Module(name, path, tree, src, is_pkg)
+        self.renames = self._normalise_private_renames()
         for m in self.modules.values():
             self._index_module(m)
         for m in self.modules.values():
@@ -105,6 +144,61 @@ class Program:
                     self.resolve(m, ast.unparse(b.value)) for b in c.node.bases
                     if isinstance(b, ast.Subscript)]
                 self.classes[c.qualname] = c
+
+    # ------------------------------------------------------- private renames
+    def _normalise_private_renames(self) -> dict:
+        """The rules name private helpers (functions, methods, classes, fields whose name starts with one
+        underscore).  Renaming such a symbol is a behaviour-preserving refactor, so a private name recorded in
+        anchors.json that has vanished is matched against the *new* private names of the same scope with the same
+        signature; a unique match is renamed back in the parsed trees (never on disk) before anything is indexed.
+        No unique match: nothing is done and the rule that needs the anchor reports `anchor vanished` (exit 2)."""
+        path = os.path.join(os.path.dirname(os.path.abspath(__file__)), "anchors.json")
+        if not os.path.exists(path):
+            return {}
+        import json
+        want = json.load(open(path))
+        have = private_symbols(self.modules)
+        ren: dict[str, str] = {}
+        for scope, old_syms in want.items():
+            new_syms = have.get(scope)
+            if new_syms is None:
+                continue
+            missing = {n: sig for n, sig in old_syms.items() if n not in new_syms}
+            added = {n: sig for n, sig in new_syms.items() if n not in old_syms}
+            for n, sig in missing.items():
+                cands = [a for a, asig in added.items() if asig == sig]
+                rivals = [m2 for m2, msig in missing.items() if msig == sig]
+                if len(cands) == 1 and len(rivals) == 1 and cands[0] not in ren and n not in ren.values():
+                    ren[cands[0]] = n
+        if not ren:
+            return {}
+        # the old names must be free everywhere, the new names must not collide with each other
+        used = set()
+        for m in self.modules.values():
+            for node in ast.walk(m.tree):
+                if isinstance(node, ast.Name):
+                    used.add(node.id)
+                elif isinstance(node, ast.Attribute):
+                    used.add(node.attr)
+                elif isinstance(node, (ast.FunctionDef, ast.ClassDef)):
+                    used.add(node.name)
+        ren = {new: old for new, old in ren.items() if old not in used}
+        for m in self.modules.values():
+            for node in ast.walk(m.tree):
+                if isinstance(node, ast.Name) and node.id in ren:
+                    node.id = ren[node.id]
+                elif isinstance(node, ast.Attribute) and node.attr in ren:
+                    node.attr = ren[node.attr]
+                elif isinstance(node, (ast.FunctionDef, ast.AsyncFunctionDef, ast.ClassDef)) and node.name in ren:
+                    node.name = ren[node.name]
+                elif isinstance(node, ast.alias):
+                    if node.name in ren:
+                        node.name = ren[node.name]
+                    if node.asname in ren:
+                        node.asname = ren[node.asname]
+                elif isinstance(node, ast.keyword) and node.arg in ren:
+                    node.arg = ren[node.arg]
+        return ren
 
     def _index_module(self, m: Module):
         pkg = m.name if m.is_pkg else m.name.rsplit(".", 1)[0]
